@@ -2,6 +2,7 @@
 // One case per line (see checks/C11.py for the case language), one answer line per case.
 //   p <full> <hexdoc>      parse through every entry point (char range, istream, operator>>), pre-filled target
 //   w <tree>               build the tree through the API, save compact/readable under several locales, reload
+//   wd <tree>              same, compact layout only (deep trees: the readable text grows quadratically)
 //   g <16 hex digits>      typed extraction get_value<T> of the number with that bit pattern, every arithmetic T
 //   q <hex>                to_json(string) through the string and the stream path
 // Tree notation (also used for answers): U undefined, N null, T, F, D<16 hex bits>, S<hex|->, [a,b], {S<hex>:v,...}
@@ -207,14 +208,15 @@ int main()
 			if (!same) out = "p PATHS-DIFFER range=" + sa + " stream=" + show(b) + " stream-comma=" + show(c) + " global-comma=" + show(d) + (k1 && k2 ? "" : " LOCALE-NOT-RESTORED");
 			else out = "p " + sa;
 		}
-		else if (v.size() == 2 && v[0] == "w") {
+		else if (v.size() == 2 && (v[0] == "w" || v[0] == "wd")) {
+			bool both = v[0] == "w";   // wd: compact layout only (deep trees)
 			json::value t;
 			builder bl(v[1]); bl.val(t);
-			if (bl.bad || bl.i != v[1].size()) { out = "w BAD-TREE"; }
+			if (bl.bad || bl.i != v[1].size()) { out = v[0] + " BAD-TREE"; }
 			else {
 				std::string ref = dump(t);
 				std::string txt[2]; bool thrown = false, loc = true;
-				for (int how = 0; how < 2 && !thrown; how++) {
+				for (int how = 0; how < (both ? 2 : 1) && !thrown; how++) {
 					try {
 						txt[how] = t.save(how ? json::readable : json::compact);
 						// same under a global comma locale (internal ostringstream picks the global locale)
@@ -232,22 +234,24 @@ int main()
 						if (t2 != txt[how] || o3.str() != txt[how] || o4.str() != txt[how] || !kept || o5.str() != "1.234,5") loc = false;
 					} catch (json::bad_value_cast const &) { thrown = true; }
 				}
-				if (thrown) out = "w throw";
+				if (thrown) out = v[0] + " throw";
 				else {
 					json::value v1;
 					std::string rc = reload(txt[0], ref, &v1);
-					std::string rr = reload(txt[1], ref);
+					std::string rr = both ? reload(txt[1], ref) : std::string("-");
 					std::string r2 = "-";
 					if (rc != "F") {
 						std::string ref1 = dump(v1);
 						r2 = reload(v1.save(json::compact), ref1);
-						std::string r2r = reload(v1.save(json::readable), ref1);
-						if (r2r != r2) r2 = "LAYOUTS-DIFFER";
+						if (both) {
+							std::string r2r = reload(v1.save(json::readable), ref1);
+							if (r2r != r2) r2 = "LAYOUTS-DIFFER";
+						}
 					}
 					// operator== of the library on the reloaded value (should agree with bit equality for finite numbers)
 					std::string eq = "-";
 					if (rc != "F") eq = (v1 == t) ? "1" : "0";
-					out = "w C=" + hex(txt[0]) + " R=" + hex(txt[1]) + " loc=" + (loc ? "1" : "0") + " rc=" + rc + " rr=" + rr + " r2=" + r2 + " eq=" + eq;
+					out = v[0] + " C=" + hex(txt[0]) + " R=" + (both ? hex(txt[1]) : std::string("-")) + " loc=" + (loc ? "1" : "0") + " rc=" + rc + " rr=" + rr + " r2=" + r2 + " eq=" + eq;
 				}
 			}
 		}
